@@ -1,10 +1,11 @@
 """A small C expression parser (precedence climbing) and evaluator over Python ints — for decision expressions in utility code.
 
-AST: ('num', v) ('id', name) ('un', op, x) ('bin', op, a, b) ('tern', c, a, b) ('call', name, [args]) ('cast', type text, x)
+AST: ('num', v: int, or float for a floating literal) ('id', name) ('un', op, x) ('bin', op, a, b) ('tern', c, a, b) ('call', name, [args]) ('cast', type text, x)
      ('char', v) ('sizeof', text)"""
 import re
 
-TOK = re.compile(r"\s*(?:(0[xX][0-9a-fA-F]+|\d+)[uUlL]*|('(?:\\.|[^'\\])+')|(%\(\w+\)s|\{\{[^}]*\}\}|[A-Za-z_]\w*(?:->\w+|\.\w+)*)|(<<=|>>=|<<|>>|<=|>=|==|!=|&&|\|\||[-+*/%&|^~!<>?:(),\[\]]))")
+TOK = re.compile(r"\s*(?:(?P<flt>(?:\d+\.\d*|\.\d+)(?:[eE][-+]?\d+)?[fFlL]?|\d+[eE][-+]?\d+[fFlL]?)|(?P<int>0[xX][0-9a-fA-F]+|\d+)[uUlL]*|(?P<chr>'(?:\\.|[^'\\])+')|"
+                 r"(?P<id>%\(\w+\)s|\{\{[^}]*\}\}|[A-Za-z_]\w*(?:->\w+|\.\w+)*)|(?P<op><<=|>>=|<<|>>|<=|>=|==|!=|&&|\|\||[-+*/%&|^~!<>?:(),\[\]]))")
 
 BINPREC = {'||': 1, '&&': 2, '|': 3, '^': 4, '&': 5, '==': 6, '!=': 6, '<': 7, '>': 7, '<=': 7, '>=': 7, '<<': 8, '>>': 8,
            '+': 9, '-': 9, '*': 10, '/': 10, '%': 10}
@@ -25,15 +26,17 @@ def tokenize(s):
         m = TOK.match(s, i)
         if not m:
             raise ParseError('cannot tokenize at %r' % s[i:i + 20])
-        if m.group(1) is not None:
-            out.append(('num', int(m.group(1), 0)))
-        elif m.group(2) is not None:
-            body = m.group(2)[1:-1]
+        if m.group('flt') is not None:
+            out.append(('num', float(m.group('flt').rstrip('fFlL'))))
+        elif m.group('int') is not None:
+            out.append(('num', int(m.group('int'), 0)))
+        elif m.group('chr') is not None:
+            body = m.group('chr')[1:-1]
             out.append(('char', ord(bytes(body, 'latin-1').decode('unicode_escape'))))
-        elif m.group(3) is not None:
-            out.append(('id', m.group(3)))
+        elif m.group('id') is not None:
+            out.append(('id', m.group('id')))
         else:
-            out.append(('op', m.group(4)))
+            out.append(('op', m.group('op')))
         i = m.end()
     return out
 
